@@ -14,10 +14,10 @@ cd $WT
 echo "== apply"; git apply $OUT/patch.diff || { echo APPLY-FAILED; exit 2; }
 echo "== build"; go build ./... || { echo BUILD-FAILED; exit 2; }
 mkdir -p $(dirname $DEST); cp -r $SRC $DEST
-echo "== demo with change (expect FAIL)"; bash -c "$CMD" > $WT.demo1 2>&1; RC1=$?; tail -5 $WT.demo1; echo "rc=$RC1"
-echo "== demo without change (expect PASS)"; git apply -R $OUT/patch.diff; bash -c "$CMD" > $WT.demo2 2>&1; RC2=$?; tail -3 $WT.demo2; echo "rc=$RC2"
+echo "== demo with change (expect FAIL)"; unshare -n sh -c "ip link set lo up; $CMD" > $WT.demo1 2>&1; RC1=$?; tail -5 $WT.demo1; echo "rc=$RC1"
+echo "== demo without change (expect PASS)"; git apply -R $OUT/patch.diff; unshare -n sh -c "ip link set lo up; $CMD" > $WT.demo2 2>&1; RC2=$?; tail -3 $WT.demo2; echo "rc=$RC2"
 git apply $OUT/patch.diff
-echo "== suite with change"; rm -rf $DEST; go test -vet=off -count=1 -timeout 25m ./... > $WT.suite 2>&1; RC3=$?; grep -E "^(ok|FAIL|---)" $WT.suite | head -20; echo "rc=$RC3"
+echo "== suite with change"; rm -rf $DEST; unshare -n sh -c "ip link set lo up; go test -vet=off -count=1 -timeout 25m ./..." > $WT.suite 2>&1; RC3=$?; grep -E "^(ok|FAIL|---)" $WT.suite | head -20; echo "rc=$RC3"
 echo "RESULT $N demo_with=$RC1 demo_without=$RC2 suite=$RC3"
 } > $LOG 2>&1
 tail -1 $LOG
